@@ -16,7 +16,7 @@ import numpy as np
 import scipy.sparse as sps
 from hypothesis import strategies as st
 
-from ..core import HarnessError, require, require_close
+from ..core import HarnessError, require
 from ..gen.grids import build_grid, grid_meta, grid_spec
 from ..gen.mdgrids import build_mdg, mdg_labels, mdg_spec
 
@@ -80,7 +80,11 @@ def _spec(draw, tier):
         fam = draw(st.sampled_from(["cart", "tensor", "tri", "tet", "poly", "polyx"] + (["gmsh"] if thorough else [])))
         dims = {"cart": (1, 2, 3), "tensor": (1, 2, 3), "tri": (2,), "poly": (2,), "tet": (3,), "polyx": (3,),
                 "gmsh": (2, 3)}[fam]
-        s["grid"] = draw(grid_spec(dims=dims, kinds=(fam,), max_n=5 if thorough else 4, max_n3=3, gmsh=(fam == "gmsh")))
+        s["grid"] = dict(draw(grid_spec(dims=dims, kinds=(fam,), max_n=5 if thorough else 4, max_n3=3,
+                                        gmsh=(fam == "gmsh"))))
+        if fam == "gmsh":  # mesh size is h * min(phys): bound the box aspect ratio -> at most a few hundred cells
+            m = min(s["grid"]["phys"])
+            s["grid"]["phys"] = [min(p, 2.0 * m) for p in s["grid"]["phys"]]
     else:
         s["mdg"] = draw(mdg_spec(min_fracs=1, max_n=5 if thorough else 4, max_n3=3))
     mode = draw(st.sampled_from(["normal", "normal", "signs", "divfree-proj", "divfree-cycle"]))
